@@ -5,13 +5,15 @@ T: coq/gen/InstrGen.v + coq/gen/InstrCodecGen.v regenerated from vm/src/types.rs
 Proofs: coq/theories/Props/C12.v over VM/Codec.v (byte-level model of bincode's fixed-width and varint
    encodings of instructions and of the CompiledFunction skeleton): decode . encode = id, every strict
    prefix of an encoding is a decoding error, encodings are prefix-free/injective, unknown variant index
-   is an error.
+   is an error; the decoder (like the real loader) accepts dangling string/function/jump references
+   (`_refuted` witness = known finding load-crash:corrupt:instr-index:*), the checked decoder does not.
 C: harness/src/bin/c12.rs
    (2) the property itself on generated programs and corpus/std modules: compile_to_bytecode to JSON,
        bincode-varint, bincode-fixed; load_bytecode / Precompiled::run_expr into the same and a fresh VM;
        canonical outcome (value, error class, effect log) must equal the source's;
    (3) the extracted model's enc_fn bytes must equal what bincode writes for the same skeleton, and those
-       bytes must occur in order inside the real serialisation of the module;
+       bytes must occur in order inside the real serialisation of the module; every real skeleton must pass
+       the model's range check (wf_fnb) and reference check (refs_ok);
    (4) truncations and single-field corruptions loaded in child processes: Err or clean runtime error,
        never panic/abort/hang.
 """
